@@ -32,6 +32,18 @@ CLAIMED = {
         'with depth and list unchanged; velocity blocks are projected at their true offsets and every other slot is returned unchanged; a world without cross section throws.',
    note=TB + 'exact-real reading with sqrt/atan2/sin/cos uninterpreted under contract axioms; the unit direction vector computed from JSON in parse_entries is a symbolic input (outside).',
    technique='symbolic execution of clang LLVM IR + z3 (QF_NRA+UF), callee replaced by a recording stub, bounded request length', design='4/C09'),
+ 'C02': dict(
+   text='Symbolic execution of the real ContinentalPlate/OceanicPlate/MantleLayer::properties and of World::properties\' fold over features: with the extent predicates replaced by arbitrary Booleans/values and models by '
+        'uninterpreted functions of the incoming value, the solver shows for every request up to the bound and all doubles that a non-covering feature changes no slot, a covering one changes exactly the requested slots to the chain of its models in list order '
+        '(unchanged for an empty model list), the tag is the last covering feature, deleting or moving a non-covering feature changes nothing, and the operations table is bit exact.',
+   note=TB + 'kernels (polygon, depth surfaces) are stubs here and are checked under C04/C11/C19; slab/fault/plume frames are covered by C06/C04.plume harnesses; velocity without velocity models is excluded by the statement.',
+   technique='symbolic execution of clang LLVM IR + z3 (FP with uninterpreted models), environment stubs for geometric kernels, bounded request length', design='4/C02'),
+ 'C04': dict(
+   text='(a) the real polygon test is proved equal to the closed winding-number definition for every triangle and (thorough) simple quadrilateral on a small integer lattice where double arithmetic is exact, plus an on-edge lemma for N<=5 and memory safety for arbitrary doubles; '
+        '(b) the longitude alias rule of the spherical wrapper; (c) the extent guards of the three area features (closed depth interval, local depth surfaces, polygon fed with the natural surface position); '
+        '(d) Plume::properties: bracket selection, linear interpolation of centre/axis/eccentricity, shorter-arc rotation, head half-ellipsoid, closed membership, and the ellipse formula, over the reals with libm uninterpreted.',
+   note=TB + 'lattice bounds and vertex counts as listed per obligation; polygons with more than 4 vertices only through the on-edge lemma; rounding at non-representable boundaries is outside.',
+   technique='symbolic execution of clang LLVM IR + z3 (QF_NRA on integer lattices, FP for guards), oracle = textbook definition executed symbolically alongside', design='4/C04'),
 }
 NA_DEFAULT = 'check not built yet (work in progress; see DESIGN.md section 4 for the planned obligations)'
 NA = {
